@@ -95,7 +95,7 @@ Definition get_field_decorators (attrs : list attr) : outcome fdecmap :=
     match m with
     | MList [name] _ dargs =>
       match lang_of_str name with
-      | None => Panic "parser.rs:737"
+      | None => Ok mp                               (* a nested list that names no language is not a decorator (/repo fix) *)
       | Some l =>
         let ds := match dargs with
                   | None => []
@@ -155,7 +155,7 @@ Definition parse_struct (attrs : list attr) (ident : str) (gens : list gparam) (
     | FUnnamed l =>
       match l with
       | _ :: _ :: _ => Err EComplexTupleStruct
-      | [] => Panic "parser.rs:287"                (* f.unnamed[0] on `struct S();` *)
+      | [] => Err (EUnsupportedTypeP (ident ++ lit "()"))       (* `struct S();` (/repo fix) *)
       | [f] =>
         do t <- field_type f;
         mk_alias attrs ident gens t
@@ -178,7 +178,7 @@ Definition parse_enum_variant (enum_rename_all : option str) (v : variant) : out
   | FUnnamed l =>
     match l with
     | _ :: _ :: _ => Err EMultipleUnnamed
-    | [] => Panic "parser.rs:445"                  (* .first().unwrap() on `V()` *)
+    | [] => Err (EUnsupportedTypeP (v_ident v ++ lit "()"))     (* `V()` (/repo fix) *)
     | [f] => do t <- field_type f; Ok (VTuple t sh)
     end
   | FNamed l =>
